@@ -103,5 +103,18 @@ VF_E size_type u_find_first_not_of_c(CSV const& h, char c, size_type pos) { retu
 VF_E size_type u_find_last_not_of_c(CSV const& h, char c, size_type pos) { return h.find_last_not_of(c, pos); }
 VF_E size_type u_find_first_of_v(CSV const& h, CSV const& n, size_type pos) { return h.find_first_of(n, pos); }
 VF_E size_type u_find_first_not_of_v(CSV const& h, CSV const& n, size_type pos) { return h.find_first_not_of(n, pos); }
+VF_E size_type u_find_v(CSV const& h, CSV const& n, size_type pos) { return h.find(n, pos); }
+VF_E size_type u_rfind_v(CSV const& h, CSV const& n, size_type pos) { return h.rfind(n, pos); }
+VF_E size_type u_copy(CSV const& h, char* dest, size_type cnt, size_type pos) { return h.copy(dest, cnt, pos); }
+VF_E int u_compare_v(CSV const& h, CSV const& v) { return h.compare(v); }
+VF_E int u_compare_pcvpc(CSV const& h, size_type p1, size_type c1, CSV const& v, size_type p2, size_type c2) { return h.compare(p1, c1, v, p2, c2); }
+VF_E int u_compare_pcv(CSV const& h, size_type p1, size_type c1, CSV const& v) { return h.compare(p1, c1, v); }
+VF_E bool u_starts_with_v(CSV const& h, CSV const& v) { return h.starts_with(v); }
+VF_E bool u_ends_with_v(CSV const& h, CSV const& v) { return h.ends_with(v); }
+VF_E bool u_eq(CSV const& a, CSV const& b) { return a == b; }
+VF_E bool u_lt(CSV const& a, CSV const& b) { return a < b; }
+VF_E bool u_le(CSV const& a, CSV const& b) { return a <= b; }
+VF_E bool u_gt(CSV const& a, CSV const& b) { return a > b; }
+VF_E bool u_ge(CSV const& a, CSV const& b) { return a >= b; }
 #endif
 }
